@@ -154,10 +154,21 @@ def handle (fs : List String) : String :=
     | some d, some m, some st, some hsame, some hd, some hi, some sub, some ti, some rk, some ls =>
       showDicts (parseDelimitedTable ls d m st (if hsame then .same else .other hd) hi sub ti rk)
     | _, _, _, _, _, _, _, _, _, _ => "bad-op"
-  | ["ks", rkc, rows, kw] => match decBool rkc, decRows rows, decPairs kw with
-    | some rkc, some rows, some kw =>
-      "ok " ++ ";".intercalate ((keywordSearch IV.Gen.Matchers.table rows rkc kw).map showRow)
-    | _, _, _ => "bad-op"
+  | ["ks", rkc, order, rows, kw] => match decBool rkc, decStrList order, decRows rows, decPairs kw with
+    | some rkc, some order, some rows, some kw =>
+      -- `order` = the iteration order of the key set observed in the interpreter; it must be one
+      if !(rows.isEmpty || isOrderOf order (keySet rows rkc)) then "bad-order" else
+      "ok " ++ ";".intercalate ((keywordSearchTx IV.Gen.Matchers.table (txKeysOf order) rows kw).map showRow)
+    | _, _, _, _ => "bad-op"
+  | "ksseq" :: rkc :: order :: rows :: kws => match decBool rkc, decStrList order, decRows rows, sequenceOpt (kws.map decPairs) with
+    | some rkc, some order, some rows, some kws =>
+      if !(rows.isEmpty || isOrderOf order (keySet rows rkc)) then "bad-order" else
+      " | ".intercalate ((keywordSearchSeq IV.Gen.Matchers.table order rows none kws).map
+        (fun r => "ok " ++ ";".intercalate (r.map showRow)))
+    | _, _, _, _ => "bad-op"
+  | ["kwof", s] => match decStr s with
+    | some s => encStr (kwOf s) ++ " " ++ encStr (txKey s)
+    | none => "bad-op"
   | ["matchers"] => ",".intercalate (IV.Gen.Matchers.table.map (fun p => String.ofList p.1))
   | ["initree", anv, tree, qs] => match decBool anv, decTree tree, decPairs qs with
     | some anv, some t, some qs => iniAnswer (iniView anv t) qs
